@@ -529,7 +529,7 @@ _BINDING_CLS_MATRIX: dict[_Truth, type[AbstractBinding]] = {
         has_args=True,
         has_kwargs=False,
         has_pos_or_kwd=True,
-    ): PosArgsBinding,
+    ): PosKwdArgsBinding,
     _Truth(
         has_pos_only=False,
         has_kwd_only=False,
@@ -543,7 +543,7 @@ _BINDING_CLS_MATRIX: dict[_Truth, type[AbstractBinding]] = {
         has_args=True,
         has_kwargs=True,
         has_pos_or_kwd=True,
-    ): ArgsKwargsBinding,
+    ): AnyParamKindBinding,
     _Truth(
         has_pos_only=False,
         has_kwd_only=True,
@@ -585,7 +585,7 @@ _BINDING_CLS_MATRIX: dict[_Truth, type[AbstractBinding]] = {
         has_args=True,
         has_kwargs=False,
         has_pos_or_kwd=True,
-    ): PosOrKwdBinding,
+    ): PosKwdArgsBinding,
     _Truth(
         has_pos_only=False,
         has_kwd_only=True,
@@ -599,7 +599,7 @@ _BINDING_CLS_MATRIX: dict[_Truth, type[AbstractBinding]] = {
         has_args=True,
         has_kwargs=True,
         has_pos_or_kwd=True,
-    ): KwdArgsKwargsBinding,
+    ): AnyParamKindBinding,
     _Truth(
         has_pos_only=True,
         has_kwd_only=False,
@@ -627,7 +627,7 @@ _BINDING_CLS_MATRIX: dict[_Truth, type[AbstractBinding]] = {
         has_args=False,
         has_kwargs=True,
         has_pos_or_kwd=True,
-    ): PosKwargsBinding,
+    ): PosKwdKwargsBinding,
     _Truth(
         has_pos_only=True,
         has_kwd_only=False,
@@ -641,7 +641,7 @@ _BINDING_CLS_MATRIX: dict[_Truth, type[AbstractBinding]] = {
         has_args=True,
         has_kwargs=False,
         has_pos_or_kwd=True,
-    ): PosArgsBinding,
+    ): PosKwdArgsBinding,
     _Truth(
         has_pos_only=True,
         has_kwd_only=False,
@@ -676,7 +676,7 @@ _BINDING_CLS_MATRIX: dict[_Truth, type[AbstractBinding]] = {
         has_args=False,
         has_kwargs=True,
         has_pos_or_kwd=False,
-    ): PosArgsKwargsBinding,
+    ): PosKwdKwargsBinding,
     _Truth(
         has_pos_only=True,
         has_kwd_only=True,
